@@ -154,6 +154,21 @@ def run_case(ctx, k, rng):
                       low=float(max(G[0, :].max(), G[:, 0].max())), high=float(G[-1, -1]), r=r_eff)
             mxm = np.max(np.abs(G[:, -1] - ndtr(zs))); mym = np.max(np.abs(G[-1, :] - ndtr(zs)))
             ctx.check("marginals recovered far in the upper tail", max(mxm, mym) <= 1e-7, worst=float(max(mxm, mym)), r=r_eff)
+        if finite and rng.random() < 0.5:
+            # the same evaluation points in other argument forms: strided 1-D views, a read-only array, mean / covariance given as
+            # lists (the kernels are documented for 1-D arrays of points: 2-D meshes are not an accepted form)
+            form = str(rng.choice(["strided", "readonly", "mu-sigma-lists"]))
+            ctx.ran()
+            if form == "strided":
+                bx = np.zeros(2 * XX.size); by = np.zeros(2 * YY.size); bx[::2] = XX.ravel(); by[::2] = YY.ravel()
+                G2 = np.asarray(K.gaussian(bx[::2], by[::2], mu=mu, sigma=sigma), float).reshape(G.shape)
+            elif form == "readonly":
+                rx, ry = XX.ravel().copy(), YY.ravel().copy(); rx.setflags(write=False); ry.setflags(write=False)
+                G2 = np.asarray(K.gaussian(rx, ry, mu=mu, sigma=sigma), float).reshape(G.shape)
+            else:
+                G2 = np.asarray(K.gaussian(XX.ravel(), YY.ravel(), mu=mu.tolist(), sigma=sigma.tolist()), float).reshape(G.shape)
+            ctx.check("other argument forms give the same values", G2.shape == G.shape and np.array_equal(G2, G), form=form,
+                      shape=G2.shape, worst=float(np.max(np.abs(G2 - G))) if G2.shape == G.shape else None)
         if cov == 0.0:
             prod = np.outer(ndtr(zs), ndtr(zs))
             ctx.check("zero covariance => product of marginals", finite and np.max(np.abs(G - prod)) <= 1e-14, worst=float(np.max(np.abs(G - prod))))
